@@ -1,6 +1,6 @@
 SPECIFICATION Spec
 CONSTANTS MaxMsgs = 2
-          MaxFlips = 1
+          MaxFlips = 2
           MaxErrReads = 1
 INVARIANTS Invs EmitCase
 CHECK_DEADLOCK FALSE
